@@ -240,7 +240,7 @@ def _replace_var_build(tree, consts):
             w = claripy.BoolS("wb", explicit_name=True)
             news = [("fresh", w), ("expr", claripy.Not(w)), ("true", claripy.true())]
         for lab, new in news:
-            r = e.replace(v, new)
+            r = claripy.replace(e, v, new)
             runs.append((f"{v.args[0]}->{lab}", e, r, [(v, new)]))
     # simultaneous swap / rotation through replace_dict
     bvs = [v for v in uniq if v.op == "BVS"]
@@ -302,7 +302,7 @@ def _replace_sub_build(tree, consts):
             new = claripy.BoolS("wb", explicit_name=True)
         else:
             continue
-        r = e.replace(old, new)
+        r = claripy.replace(e, old, new)
         runs.append((f"sub{k}", e, r, old, new))
     return runs
 
